@@ -138,7 +138,68 @@ func alphabet(names []string) []op {
 	return ops
 }
 
+var inReplaySeqs atomic.Int64
+
+// runSeqInReplay: the operations after the first one are issued from inside the callback of a running
+// ReplayWithUpcast (a handler that migrates the registry while it replays): each is accepted or
+// rejected by the same rule — and returns.
+func runSeqInReplay(run *vk.Run, seq []op, tag string) {
+	store := ebu.NewMemoryStore()
+	store.Append(context.Background(), &ebu.Event{Type: "c16.unrelated", Data: json.RawMessage(`{}`)})
+	bus := ebu.New(ebu.WithStore(store))
+	g := graph{}
+	done := make(chan string, 1)
+	go func() {
+		msg := ""
+		step := func(i int, o op) bool {
+			before := g.clone()
+			want := g.step(o)
+			if got := apply(bus, o); got != want {
+				msg = fmt.Sprintf("operation %d (%s), issued from inside a ReplayWithUpcast callback with the registry holding {%s}: accepted=%v, the rule says %v", i, o, before.key(), got, want)
+				return false
+			}
+			return true
+		}
+		if step(0, seq[0]) {
+			bus.ReplayWithUpcast(context.Background(), ebu.OffsetOldest, func(*ebu.StoredEvent) error {
+				for i, o := range seq[1:] {
+					if !step(i+1, o) {
+						break
+					}
+				}
+				return nil
+			})
+		}
+		done <- msg
+	}()
+	for waited := 0; ; waited++ {
+		select {
+		case msg := <-done:
+			if msg != "" {
+				run.Violation("upcast-registration:inside-replay-callback", msg, map[string]any{"sequence": fmt.Sprint(seq)})
+			}
+			inReplaySeqs.Add(1)
+			return
+		case <-time.After(20 * time.Second):
+			buf := make([]byte, 1<<20)
+			d := string(buf[:runtime.Stack(buf, true)])
+			if watchdog.BlockedUnderEbu(d) {
+				run.Violation("upcast-registration:inside-replay-callback-hangs", fmt.Sprintf("sequence %v: a registry operation issued from inside a ReplayWithUpcast callback never returned (goroutines are parked below ebu frames)", seq), map[string]any{"sequence": fmt.Sprint(seq), "dump": d[:min(len(d), 8000)]})
+				run.Finish()
+				watchdog.Exit()
+			}
+			if waited >= 30 {
+				run.Inconclusive("registry operations inside a replay callback did not finish within 10 minutes")
+				return
+			}
+		}
+	}
+}
+
 func runSeq(run *vk.Run, seq []op, tag string) {
+	if len(seq) >= 2 && vk.Hash64(fmt.Sprint(seq))%4 == 0 {
+		runSeqInReplay(run, seq, tag+"-in-replay")
+	}
 	runSeqVia(run, seq, tag, false)
 	if len(seq) >= 2 && seq[0].K == "reg" {
 		runSeqVia(run, seq, tag+"-opt", true)
@@ -191,6 +252,7 @@ func runSeqVia(run *vk.Run, seq []op, tag string, viaOptions bool) {
 func TestC16Sequences(t *testing.T) {
 	run := vk.New("C16", "sequences")
 	defer run.Finish()
+	defer func() { run.Count("sequences_issued_from_inside_a_replay_callback", inReplaySeqs.Load()) }()
 	names := []string{"A", "B", "C"}
 	alpha := alphabet(names)
 	L := run.Scale(3, 4)
@@ -232,11 +294,15 @@ func TestC16Sequences(t *testing.T) {
 		r := run.Rand(uint64(i))
 		var seq []op
 		names5 := names5
-		switch i % 4 {
+		switch i % 6 {
 		case 0, 2:
 			names5 = []string{"A", "B", "C", "A", "B"} // few names: shared targets, clears and back edges collide
 		case 1:
 			names5 = []string{"A", "AA", "A.A", "a", "Ä"} // names that are prefixes / case variants of each other
+		case 4:
+			names5 = []string{"A", "*A", "B", "*B", "C"} // the names of pointer events next to those of their value types: different names
+		case 5:
+			names5 = []string{"pkg.T", "*pkg.T", " pkg.T", "pkg.T ", "pkg/T"} // legal names that differ in one unusual character
 		}
 		for k := 1 + r.IntN(12); k > 0; k-- {
 			switch x := r.IntN(20); {
